@@ -162,8 +162,8 @@ func (m *monC05) TaskEnd(s *Sim, t *Task) {
 	}
 	specLetter := letterOfTpl(&v.EDS.Spec.Template)
 	var up *edsv1.ExtendedDaemonSetReplicaSet
-	for _, r := range own {
-		if letterOfTpl(&r.Spec.Template) == specLetter {
+	for _, r := range v.ERSList { // list order: deterministic
+		if own[r.Name] != nil && letterOfTpl(&r.Spec.Template) == specLetter {
 			up = r
 		}
 	}
